@@ -65,8 +65,34 @@ func genNoise(dt *drv.T, c *Ctx) []*NoiseOp {
 	return out
 }
 
+// rejBulkProg: one collection of many values whose generators reject about half of the raw samples they draw
+// ("out-of-range samples": spans just above a power of two), then an unconditional failure. Long runs of rejected
+// samples only occur in bulk; the recording of such a test case, pruned, has to replay to the same values.
+func rejBulkProg(dt *drv.T) *Prog {
+	var g *GenSpec
+	if chance(dt, "bulkperm", 25) {
+		// swap indices: unbiased draws from every span below n
+		g = &GenSpec{K: "perm", N: (1 << drv.IntRange(5, 11).Draw(dt, "permk")) + drv.IntRange(1, 3).Draw(dt, "permplus")}
+	} else {
+		// the die that selects one of T rune tables: an unbiased draw from T values per rune; T = 2^k+1
+		t := pick(dt, "ntables", 17, 33, 33)
+		rs := &GenSpec{K: "runefrom"}
+		for i := 0; i < t; i++ {
+			rs.Tables = append(rs.Tables, tableNames[i%len(tableNames)])
+		}
+		n := 1500 + 500*drv.IntRange(0, 4).Draw(dt, "bulkn")
+		g = &GenSpec{K: "string", Min: n, Max: n, MaxLen: -1, Sub: []*GenSpec{rs}}
+	}
+	return &Prog{Body: []*Stmt{{Op: "draw", Label: "bulk", Gen: g}, {Op: "sig", Kind: "Fatalf", Site: 1}}}
+}
+
 func (c04) Gen(dt *drv.T, c *Ctx) any {
 	cs := &C04Case{Case: &CheckCase{}}
+	if chance(dt, "rejbulk", 3) {
+		cs.Case.Prog = rejBulkProg(dt)
+		cs.Case.Cfg = CheckCfg{Name: "TestC04", Seed: drv.Uint64Range(1, 1<<62).Draw(dt, "seed"), Checks: 2, ShrinkNS: 0}
+		return cs
+	}
 	cs.Case.Prog = GenProg(dt, progCfgReplay(c))
 	cs.Case.Cfg = genCheckCfg(dt, "TestC04", 12)
 	cs.Case.Cfg.ShrinkNS = pick(dt, "shrink", int64(0), 0, 0, 3e7)
@@ -157,6 +183,9 @@ func (c04) Run(c *Ctx, csAny any) Outcome {
 		}
 	} else {
 		out.Classes = append(out.Classes, "no-failure-in-run")
+	}
+	if len(prog.Body) == 2 && prog.Body[0].Label == "bulk" {
+		out.Classes = append(out.Classes, "bulk-of-high-rejection-draws")
 	}
 
 	// (ii)/(iii) run vs. replay of the pruned recording vs. fail-file words (exact only without minimization)
